@@ -358,6 +358,76 @@ func C17(tier rt.Tier) int {
 										}
 									}
 								}
+								// 2a. the same detection through LAYERED stores (an empty writable level over the damaged store, and a
+								// second empty level over that): "not found" then comes out of the lower level(s)
+								for depth := 1; depth <= 2; depth++ {
+									var vdb util.NodeDB = db
+									for i := 0; i < depth; i++ {
+										vdb = util.NewLevelNodeDB(util.NewMemoryNodeDB(), vdb, false)
+									}
+									open := func() *util.MerklePatriciaTrie {
+										return util.NewMerklePatriciaTrie(vdb, util.Sequence(tver), root, statecache.NewEmpty())
+									}
+									lfail := ""
+									if has, err := open().HasMissingNodes(context.Background()); err != nil || has != (len(remList) > 0) {
+										lfail = fmt.Sprintf("HasMissingNodes = %v, %v; %d reachable nodes are absent", has, err, len(remList))
+									}
+									if lfail == "" {
+										got, err := open().GetAllMissingNodes()
+										gs := map[string]bool{}
+										for _, k := range got {
+											gs[string(k)] = true
+										}
+										if err != nil || !sameSet(gs, want) || len(got) != len(gs) {
+											lfail = fmt.Sprintf("GetAllMissingNodes = %s, %v; absent nodes reachable through present ones: %s", hexSet(gs), err, hexSet(want))
+										}
+									}
+									if lfail == "" {
+										tl := open()
+										seen := map[string]bool{}
+										_ = tl.Iterate(context.Background(), func(ctx context.Context, path util.Path, key util.Key, node util.Node) error {
+											if node == nil {
+												seen[string(key)] = true
+											}
+											return nil
+										}, util.NodeTypeLeafNode|util.NodeTypeFullNode|util.NodeTypeExtensionNode|util.NodeTypeValueNode)
+										rec := map[string]bool{}
+										for _, k := range tl.GetMissingNodeKeys() {
+											rec[string(k)] = true
+										}
+										if !sameSet(seen, want) || !sameSet(rec, want) {
+											lfail = fmt.Sprintf("a full Iterate reported absent nodes %s to its handler and recorded %s; absent nodes reachable through present ones: %s", hexSet(seen), hexSet(rec), hexSet(want))
+										}
+									}
+									if lfail == "" {
+										tl := open()
+										for _, p := range paths {
+											hits := false
+											for _, h := range crossed(canon, p) {
+												if removed[string(h)] {
+													hits = true
+												}
+											}
+											v, err := tl.GetNodeValueRaw(util.Path(p))
+											wantV, present := mdl[p]
+											switch {
+											case hits && (err == nil || err == util.ErrValueNotPresent):
+												lfail = fmt.Sprintf("lookup(%q) crosses an absent node but returned %q, %v", p, v, err)
+											case !hits && present && (err != nil || string(v) != wantV):
+												lfail = fmt.Sprintf("lookup(%q) = %q, %v; want %q", p, v, err, wantV)
+											case !hits && !present && err != util.ErrValueNotPresent:
+												lfail = fmt.Sprintf("lookup(%q) = %q, %v; want 'value not present'", p, v, err)
+											}
+											if lfail != "" {
+												break
+											}
+										}
+									}
+									if lfail != "" {
+										violate("layered:"+lfail[:min(len(lfail), 20)], fmt.Sprintf("%s: the trie opened on %d empty writable level(s) over the damaged store: %s", desc, depth, lfail), replay)
+										return
+									}
+								}
 								// 2b. a repair that is interrupted by a store write error must leave the trie telling the truth
 								// about what is still absent (first donor order only: the failure position is the variable)
 								if len(remList) > 0 && len(order) > 0 && order[0] == 0 && sort.IntsAreSorted(order) {
@@ -583,6 +653,48 @@ func C17(tier rt.Tier) int {
 									}
 									if fail != "" {
 										violate("wire-donor", desc+": repair from donor nodes that were encoded, carry a version mark (origin+3) and were decoded again: "+fail, replay)
+										return
+									}
+								}
+								// 3e. the donor hands the right nodes out under WRONG keys (a peer answering with mis-filed entries:
+								// keys rotated by one, or a made-up key for a single node): MergeDB files what it takes over under
+								// each node's own hash, so the repair succeeds and no stored key differs from its node's hash
+								if len(remList) > 0 && order[0] == 0 && sort.IntsAreSorted(order) {
+									mis := &donorDB{order: order}
+									for i, n := range donor.nodes {
+										mis.nodes = append(mis.nodes, n.CloneNode())
+										if len(donor.keys) > 1 {
+											mis.keys = append(mis.keys, donor.keys[(i+1)%len(donor.keys)])
+										} else {
+											mis.keys = append(mis.keys, util.Key(model.Sha3([]byte("made-up key"))))
+										}
+									}
+									sdb := util.NewMemoryNodeDB()
+									_ = db.Iterate(context.Background(), func(ctx context.Context, key util.Key, node util.Node) error { return sdb.PutNode(key, node) })
+									tw := util.NewMerklePatriciaTrie(sdb, util.Sequence(tver), root, statecache.NewEmpty())
+									fail := ""
+									if err := tw.MergeDB(mis, root, nil); err != nil {
+										fail = "MergeDB returned " + err.Error()
+									}
+									if fail == "" {
+										_ = sdb.Iterate(context.Background(), func(ctx context.Context, key util.Key, node util.Node) error {
+											if fail == "" && !bytes.Equal(node.GetHashBytes(), key) {
+												fail = fmt.Sprintf("after MergeDB the trie's store holds under key %x a node hashing to %x", []byte(key), node.GetHashBytes())
+											}
+											return nil
+										})
+									}
+									if fail == "" {
+										if f := viewOf(tw, mdl, paths); f != "" {
+											fail = "the repairing trie after MergeDB: " + f
+										} else if has, err := util.NewMerklePatriciaTrie(sdb, util.Sequence(tver), root, statecache.NewEmpty()).HasMissingNodes(context.Background()); err != nil || has {
+											fail = fmt.Sprintf("after MergeDB a fresh trie on the store still reports missing nodes (%v, %v)", has, err)
+										} else if f := viewOf(util.NewMerklePatriciaTrie(sdb, util.Sequence(tver), root, statecache.NewEmpty()), mdl, paths); f != "" {
+											fail = "a fresh trie after MergeDB: " + f
+										}
+									}
+									if fail != "" {
+										violate("misfiled-donor", desc+": repair from a donor that hands the removed nodes out under wrong keys: "+fail, replay)
 										return
 									}
 								}
